@@ -62,7 +62,7 @@ NAME_STYLES = {
 }
 JUNK = {9: "J . 18446744073709551616 : integer beyond 64 bits", 10: "X.98765432109876543210987654321098765432109876543210",
         11: "Q. 1e999 : overflowing float", 12: "N. nan : not a number", 13: "QQ.ZZ 77 : junk description that parses",
-        14: "H. 0x1F : hex", 15: "K. 1_000 : underscore",
+        14: "H. 0x1F : hex", 15: "K. 1_000 : underscore", 16: "recovery 100% : full", 17: "rate %d {0} %(x)s. 5 : format characters",
         1: "this line has neither delimiter", 2: "!!!! ???? ----", 3: "\"quoted junk\" 'more' without a period",
         4: "x" * 300, 5: "   trailing and leading blanks   ", 6: "(((( ]]]] ((((", 7: "12345 67890", 8: "=+=+=+=+="}
 FREE = {1: "free text line one", 2: "second line, with: punctuation. and a period"}
